@@ -576,7 +576,13 @@ class Protocol:
         """
         if self._readahead is not None:
             raise ValueError("Attempted to unread multiple pkt-lines.")
-        self._readahead = BytesIO(pkt_line(data))
+        if data is not None and len(data) > MAX_PKT_LINE_DATA:
+            # read_pkt_line accepts frames up to the largest length prefix;
+            # what was read must be unreadable again (pkt_line() refuses to
+            # *send* frames this long)
+            self._readahead = BytesIO(b"%04x" % (len(data) + 4) + data)
+        else:
+            self._readahead = BytesIO(pkt_line(data))
 
     def read_pkt_seq(self) -> Iterable[bytes]:
         """Read a sequence of pkt-lines from the remote git process.
